@@ -12,6 +12,7 @@ package c20
 
 import (
 	"bytes"
+	"context"
 	"fmt"
 	"os"
 	"path/filepath"
@@ -37,6 +38,9 @@ type shape struct {
 	name   string
 	limit  int                                   // nominal limit of the implementation
 	tmpl   bool                                  // a template, not a program
+	gostmt bool                                  // the program uses the go statement
+	exact  bool                                  // the n entries of the family, plus extra, are all the table holds: every n with n+extra <= limit must build
+	extra  int                                   // table entries the program needs besides the n of the family (see the comment of the shape)
 	native bool                                  // needs the generated native package (no gc validation)
 	gen    func(n int) (src string, want string) // source and expected printed output
 }
@@ -85,39 +89,41 @@ func shapes() []shape {
 			args := joinN(n, func(i int) string { return fmt.Sprintf("z + %d", i) }, ", ")
 			return prog("var z int\n\nfunc f(" + params + " int) int {\n\treturn " + sum + "\n}\n\nfunc main() {\n\tprintln(f(" + args + "))\n}\n"), fmt.Sprintf("%d\n", sumTo(n))
 		}},
-		{name: "func-type-parameters", limit: 128, gen: func(n int) (string, string) {
+		{name: "func-type-parameters", limit: 128, exact: true, extra: 1, gen: func(n int) (string, string) {
 			// a function type with n parameters and one result that is never called
 			params := joinN(n, func(i int) string { return "int" }, ", ")
 			return prog("var f func(" + params + ") int\n\nfunc main() {\n\tprintln(f == nil)\n}\n"), "true\n"
 		}},
-		{name: "string-constants", limit: 256, gen: func(n int) (string, string) {
+		{name: "string-constants", limit: 256, exact: true, extra: 1, gen: func(n int) (string, string) {
 			// constants of different lengths: two constants that share an index change the sum
-			stmts := joinN(n, func(i int) string { return fmt.Sprintf("\tt = t + len(z + \"s%04d%s\")\n", i, strings.Repeat("x", i%13)) }, "")
-			return prog("var z string\n\nfunc main() {\n\tt := 0\n" + stmts + "\tprintln(t)\n}\n"), fmt.Sprintf("%d\n", 5*n+sumMod13(n))
+			stmts := joinIdx(reuse(n), func(i int) string {
+				return fmt.Sprintf("\tt = t + len(z + \"s%04d%s\")\n", i, strings.Repeat("x", i%13))
+			}, "")
+			return prog("var z string\n\nfunc main() {\n\tt := 0\n" + stmts + "\tprintln(t)\n}\n"), fmt.Sprintf("%d\n", sumIdx(reuse(n), func(i int) int { return 5 + i%13 }))
 		}},
-		{name: "int-constants", limit: 16384, gen: func(n int) (string, string) {
-			stmts := joinN(n, func(i int) string { return fmt.Sprintf("\tt = t + %d\n", 100000+i) }, "")
-			return prog("func main() {\n\tt := 0\n" + stmts + "\tprintln(t)\n}\n"), fmt.Sprintf("%d\n", 100000*n+sumTo(n))
+		{name: "int-constants", limit: 16384, exact: true, gen: func(n int) (string, string) {
+			stmts := joinIdx(reuse(n), func(i int) string { return fmt.Sprintf("\tt = t + %d\n", 100000+i) }, "")
+			return prog("func main() {\n\tt := 0\n" + stmts + "\tprintln(t)\n}\n"), fmt.Sprintf("%d\n", sumIdx(reuse(n), func(i int) int { return 100000 + i }))
 		}},
-		{name: "float-constants", limit: 16384, gen: func(n int) (string, string) {
-			stmts := joinN(n, func(i int) string { return fmt.Sprintf("\tt = t + %d.5\n", 1000+i) }, "")
-			return prog("func main() {\n\tt := 0.0\n" + stmts + "\tprintln(int(t * 2))\n}\n"), fmt.Sprintf("%d\n", 2*(1000*n+sumTo(n))+n)
+		{name: "float-constants", limit: 16384, exact: true, gen: func(n int) (string, string) {
+			stmts := joinIdx(reuse(n), func(i int) string { return fmt.Sprintf("\tt = t + %d.5\n", 1000+i) }, "")
+			return prog("func main() {\n\tt := 0.0\n" + stmts + "\tprintln(int(t * 2))\n}\n"), fmt.Sprintf("%d\n", sumIdx(reuse(n), func(i int) int { return 2*(1000+i) + 1 }))
 		}},
-		{name: "general-constants", limit: 256, gen: func(n int) (string, string) {
+		{name: "general-constants", limit: 256, exact: true, extra: 1, gen: func(n int) (string, string) {
 			// complex constants are held as general values
-			stmts := joinN(n, func(i int) string { return fmt.Sprintf("\tt = t + complex(%d, 1)\n", i) }, "")
-			return prog("func main() {\n\tvar t complex128\n" + stmts + "\tprintln(int(real(t)), int(imag(t)))\n}\n"), fmt.Sprintf("%d %d\n", sumTo(n), n)
+			stmts := joinIdx(reuse(n), func(i int) string { return fmt.Sprintf("\tt = t + complex(%d, 1)\n", i) }, "")
+			return prog("func main() {\n\tvar t complex128\n" + stmts + "\tprintln(int(real(t)), int(imag(t)))\n}\n"), fmt.Sprintf("%d %d\n", sumIdx(reuse(n), func(i int) int { return i }), len(reuse(n)))
 		}},
-		{name: "types", limit: 256, gen: func(n int) (string, string) {
-			stmts := joinN(n, func(i int) string { return fmt.Sprintf("\t{\n\t\tvar a [%d]int8\n\t\tt = t + len(a)\n\t}\n", i+1) }, "")
-			return prog("func main() {\n\tt := 0\n" + stmts + "\tprintln(t)\n}\n"), fmt.Sprintf("%d\n", sumTo(n)+n)
+		{name: "types", limit: 256, exact: true, extra: 2, gen: func(n int) (string, string) {
+			stmts := joinIdx(reuse(n), func(i int) string { return fmt.Sprintf("\t{\n\t\tvar a [%d]int8\n\t\tt = t + len(a)\n\t}\n", i+1) }, "")
+			return prog("func main() {\n\tt := 0\n" + stmts + "\tprintln(t)\n}\n"), fmt.Sprintf("%d\n", sumIdx(reuse(n), func(i int) int { return i + 1 }))
 		}},
-		{name: "scriggo-functions", limit: 256, gen: func(n int) (string, string) {
+		{name: "scriggo-functions", limit: 256, exact: true, gen: func(n int) (string, string) {
 			funcs := joinN(n, func(i int) string { return fmt.Sprintf("func f%d() int { return %d }\n", i, i) }, "\n")
-			stmts := joinN(n, func(i int) string { return fmt.Sprintf("\tt = t + f%d()\n", i) }, "")
-			return prog(funcs + "\nfunc main() {\n\tt := 0\n" + stmts + "\tprintln(t)\n}\n"), fmt.Sprintf("%d\n", sumTo(n))
+			stmts := joinIdx(reuse(n), func(i int) string { return fmt.Sprintf("\tt = t + f%d()\n", i) }, "")
+			return prog(funcs + "\nfunc main() {\n\tt := 0\n" + stmts + "\tprintln(t)\n}\n"), fmt.Sprintf("%d\n", sumIdx(reuse(n), func(i int) int { return i }))
 		}},
-		{name: "field-indexes", limit: 256, gen: func(n int) (string, string) {
+		{name: "field-indexes", limit: 256, exact: true, gen: func(n int) (string, string) {
 			fields := joinN(n, func(i int) string { return fmt.Sprintf("\tF%d int\n", i) }, "")
 			// every field is written before any field is read: two field
 			// paths that share an index are seen as one lost write
@@ -129,26 +135,75 @@ func shapes() []shape {
 			}
 			return prog("type S struct {\n" + fields + "}\n\nfunc main() {\n\tvar s S\n\tt := 0\n" + writes + reads + "\tprintln(t)\n}\n"), fmt.Sprintf("%d\n", want)
 		}},
-		{name: "native-functions", limit: 256, native: true, gen: func(n int) (string, string) {
-			stmts := joinN(n, func(i int) string { return fmt.Sprintf("\tt = t + nat.F%d()\n", i) }, "")
-			return prog("import \"nat\"\n\nfunc main() {\n\tt := 0\n" + stmts + "\tprintln(t)\n}\n"), fmt.Sprintf("%d\n", sumTo(n))
+		{name: "native-functions", limit: 256, exact: true, native: true, gen: func(n int) (string, string) {
+			stmts := joinIdx(reuse(n), func(i int) string { return fmt.Sprintf("\tt = t + nat.F%d()\n", i) }, "")
+			return prog("import \"nat\"\n\nfunc main() {\n\tt := 0\n" + stmts + "\tprintln(t)\n}\n"), fmt.Sprintf("%d\n", sumIdx(reuse(n), func(i int) int { return i }))
 		}},
-		{name: "template-string-constants", limit: 256, tmpl: true, gen: func(n int) (string, string) {
-			stmts := joinN(n, func(i int) string { return fmt.Sprintf("{%% t = t + len(z + \"s%04d%s\") %%}", i, strings.Repeat("x", i%13)) }, "\n")
-			return "{% var t = 0 %}{% var z = \"\" %}\n" + stmts + "\n[{{ t }}]", fmt.Sprintf("[%d]", 5*n+sumMod13(n))
+		{name: "template-string-constants", limit: 256, exact: true, extra: 1, tmpl: true, gen: func(n int) (string, string) {
+			stmts := joinIdx(reuse(n), func(i int) string {
+				return fmt.Sprintf("{%% t = t + len(z + \"s%04d%s\") %%}", i, strings.Repeat("x", i%13))
+			}, "\n")
+			return "{% var t = 0 %}{% var z = \"\" %}\n" + stmts + "\n[{{ t }}]", fmt.Sprintf("[%d]", sumIdx(reuse(n), func(i int) int { return 5 + i%13 }))
 		}},
 		{name: "template-int-locals", limit: 127, tmpl: true, gen: func(n int) (string, string) {
 			decl := joinN(n, func(i int) string { return fmt.Sprintf("{%% v%d := z + %d %%}", i, i) }, "\n")
 			sum := joinN(n, func(i int) string { return fmt.Sprintf("v%d", i) }, " + ")
 			return "{% var z = 0 %}\n" + decl + "\n[{{ " + sum + " }}]", fmt.Sprintf("[%d]", sumTo(n))
 		}},
+		{name: "select-cases", limit: 65535, exact: true, gen: func(n int) (string, string) {
+			// n cases, one of them ready; the run has a context that can be
+			// cancelled, whose done channel is one more case for the VM
+			cases := strings.Repeat("\tcase <-nilc:\n", n-1)
+			return prog("func main() {\n\tch := make(chan int, 1)\n\tch <- 7\n\tvar nilc chan int\n\t_ = nilc\n\tselect {\n\tcase v := <-ch:\n\t\tprintln(v)\n" + cases + "\t}\n}\n"), "7\n"
+		}},
+		{name: "native-functions-and-complex-negation", limit: 255, exact: true, native: true, gen: func(n int) (string, string) {
+			// the negation of a complex value is one more native function of the table
+			stmts := joinIdx(reuse(n), func(i int) string { return fmt.Sprintf("\tt = t + nat.F%d()\n", i) }, "")
+			return prog("import \"nat\"\n\nvar c = complex(1, 2)\n\nfunc main() {\n\tt := 0\n" + stmts + "\td := -c\n\te := -d\n\tprintln(t, int(real(d)), int(imag(e)))\n}\n"), fmt.Sprintf("%d -1 2\n", sumIdx(reuse(n), func(i int) int { return i }))
+		}},
+		{name: "go-statement-argument-registers", limit: 125, gostmt: true, gen: func(n int) (string, string) {
+			// n live int variables, then a go statement whose arguments take the last registers
+			decl := joinN(n, func(i int) string { return fmt.Sprintf("\tv%d := z + %d\n", i, i) }, "")
+			sum := joinN(n, func(i int) string { return fmt.Sprintf("v%d", i) }, " + ")
+			return prog("var z int\n\nfunc f(x int, ch chan int) {\n\tch <- x\n}\n\nfunc main() {\n\tch := make(chan int)\n" + decl + "\tgo f(v0+7, ch)\n\tprintln(<-ch)\n\tprintln(" + sum + ")\n}\n"), fmt.Sprintf("7\n%d\n", sumTo(n))
+		}},
 		{name: "template-macros", limit: 256, tmpl: true, gen: func(n int) (string, string) {
 			macros := joinN(n, func(i int) string { return fmt.Sprintf("{%% macro M%d %%}%d,{%% end %%}", i, i%10) }, "\n")
-			calls := joinN(n, func(i int) string { return fmt.Sprintf("{{ M%d() }}", i) }, "")
-			want := joinN(n, func(i int) string { return fmt.Sprintf("%d,", i%10) }, "")
+			calls := joinIdx(reuse(n), func(i int) string { return fmt.Sprintf("{{ M%d() }}", i) }, "")
+			want := joinIdx(reuse(n), func(i int) string { return fmt.Sprintf("%d,", i%10) }, "")
 			return macros + "\n[" + calls + "]", "[" + want + "]"
 		}},
 	}
+}
+
+// reuse returns the order in which the n entries of a table are used: each
+// one once, then the first and the last again, so that a table that is
+// exactly full is also looked up for entries it already holds.
+func reuse(n int) []int {
+	idx := make([]int, 0, n+2)
+	for i := 0; i < n; i++ {
+		idx = append(idx, i)
+	}
+	if n > 0 {
+		idx = append(idx, 0, n-1)
+	}
+	return idx
+}
+
+func joinIdx(idx []int, f func(int) string, sep string) string {
+	parts := make([]string, len(idx))
+	for k, i := range idx {
+		parts[k] = f(i)
+	}
+	return strings.Join(parts, sep)
+}
+
+func sumIdx(idx []int, f func(int) int) int {
+	t := 0
+	for _, i := range idx {
+		t += f(i)
+	}
+	return t
 }
 
 func sumMod13(n int) int {
@@ -186,7 +241,7 @@ func goBin() string {
 func (prop) Drive(d *core.Driver) error {
 	delta := d.N(4, 12)
 	d.T.Rule = fmt.Sprintf("for each limit a family of programs/templates with n locals, call arguments, distinct constants of each kind, types, called Scriggo functions, native functions, struct fields or macros is swept for n in a coarse grid from 1 to limit+%d and densely in [limit-%d, limit+%d] and around the observed accept/reject transition; every n is classified (builds and prints the closed-form expected output | limit-exceeded *BuildError | anything else = violation). The closed form is validated against gc for two n per shape. distinct_nontrivial counts distinct (shape, n, outcome class) triples.", delta, delta, delta)
-	d.T.Assumptions = []string{"expected outputs are closed forms validated against gc on sampled n (not every n is run under gc)", "the select-cases limit (65536) and the instructions limit (2^32) are not swept"}
+	d.T.Assumptions = []string{"expected outputs are closed forms validated against gc on sampled n (not every n is run under gc)", "the instructions limit (2^32) is not swept"}
 	// validate the closed forms against gc
 	var sources []string
 	var wants []string
@@ -294,6 +349,11 @@ func (prop) Work(c core.Case) core.Result {
 				res.Counts["accepted_above_a_rejected_count"]++
 			}
 		case "limit":
+			if sh.exact && n+sh.extra <= sh.limit {
+				res.Status = core.Violation
+				res.Detail = fmt.Sprintf("shape %s with n=%d (limit %d, the program needs %d entries): limit error for a program within the limit: %s\n--- source ---\n%s", sh.name, n, sh.limit, n+sh.extra, detail, core.Truncate(src, 6000))
+				return res
+			}
 			if firstFail < 0 {
 				firstFail = n
 				firstMsg = detail
@@ -326,9 +386,9 @@ func classify(sh *shape, src, want string, n int) (string, string) {
 			}
 			return
 		}
-		var opts *scriggo.BuildOptions
+		opts := &scriggo.BuildOptions{AllowGoStmt: sh.gostmt}
 		if sh.native {
-			opts = &scriggo.BuildOptions{Packages: natPackage(n)}
+			opts.Packages = natPackage(n)
 		}
 		var p *scriggo.Program
 		p, buildErr = scriggo.Build(scriggo.Files{"main.go": []byte(src)}, opts)
@@ -336,7 +396,10 @@ func classify(sh *shape, src, want string, n int) (string, string) {
 			return
 		}
 		var b strings.Builder
-		runErr = p.Run(&scriggo.RunOptions{Print: func(a any) { fmt.Fprint(&b, a) }})
+		// the run has a context that can be cancelled, as embedders normally give
+		ctx, cancel := context.WithCancel(context.Background())
+		defer cancel()
+		runErr = p.Run(&scriggo.RunOptions{Context: ctx, Print: func(a any) { fmt.Fprint(&b, a) }})
 		out = b.String()
 	})
 	switch {
